@@ -58,11 +58,13 @@ func profileConfig(p string, seed uint64) RunConfig {
 		if r.IntN(3) > 0 {
 			c.Faults = append(c.Faults, "dp")
 		}
+		c.AutoFwd = r.IntN(3) > 0
 	case "C04":
 		c.AutoAnswer = false
 		c.NSMF = 2 + r.IntN(2)
 	case "C05":
 		c.AutoAnswer = false
+		c.AutoFwd = r.IntN(3) > 0
 		c.NSMF = 2 + r.IntN(3)
 		c.NSlots = 2 + r.IntN(3)
 	case "C06":
@@ -94,6 +96,9 @@ func profileConfig(p string, seed uint64) RunConfig {
 	case "C13", "C14":
 		if r.IntN(4) == 0 {
 			c.Faults = append(c.Faults, "gtpu")
+		}
+		if p == "C13" && r.IntN(3) == 0 {
+			c.AutoFwd = false // notifications wait in the report queue while requests are served
 		}
 	case "C15":
 		c.NSlots = 2 + r.IntN(4)
@@ -198,6 +203,12 @@ func newGen(s *Sim) *Gen {
 		g.mode = "wild"
 		g.perioOK = true
 		g.w = map[string]int{"hb": 2, "est": 6, "mod": 6, "del": 2, "raw": 24, "adv": 2, "krep": 2, "kbuf": 2, "reassoc": 1}
+	}
+	if s.cfg.faultOn("n4") {
+		g.w["n4err"] = 2
+	}
+	if s.cfg.Interpose && !s.cfg.AutoFwd {
+		g.w["fwdrep"] = 10
 	}
 	return g
 }
@@ -961,6 +972,13 @@ func (g *Gen) one() (Action, bool) {
 		return Action{Op: "ans", Ans: &AnsIntent{Idx: g.intn(4), Mode: "seid0"}}, true
 	case "gtpuerr":
 		return Action{Op: "gtpuerr", N: 1 + g.intn(2)}, true
+	case "n4err":
+		return Action{Op: "n4err", N: 1 + g.intn(2)}, true
+	case "fwdrep":
+		if g.s.pendingReports() == 0 {
+			return Action{}, false
+		}
+		return Action{Op: "fwdrep", N: g.intn(g.s.pendingReports())}, true
 	}
 	return g.special()
 }
